@@ -648,6 +648,11 @@ func buildWorkflow[I, O any](sp *Spec, path string, bo *BuildOpts) (*compose.Wor
 			nodes[n.Key] = wf.AddGraphNode(n.Key, sub, opts...)
 		}
 	}
+	for i := range sp.Nodes {
+		if n := &sp.Nodes[i]; n.Static != "" {
+			nodes[n.Key].SetStaticValue(compose.FieldPath{n.Static}, "static")
+		}
+	}
 	nodes[End] = wf.End()
 	for _, e := range sp.Edges {
 		to := nodes[e.To]
